@@ -1,9 +1,11 @@
-import os, subprocess
+import os, subprocess, sys
+sys.path.insert(0, os.path.join(os.environ.get('VERIF_ROOT', '/verif'), 'harness', 'C02'))
+import il          # instruction-level leg of the real PTG runtime (harness/C02/il.py, c02_il.c), here with taskpool_wait on stream 0
 META = dict(
-    engine='rt',
-    technique='bounded-exhaustive enumeration of legal start/add/wait/test/insert histories of the real runtime, each executed under every task-level order of a harness-owned scheduler (one stream), plus a free-running configuration box',
-    level_text='All complete legal histories (alphabet: context_start, context_wait, add_taskpool(root of a tree of "first task adds" / "completion callback adds" links), taskpool_wait, taskpool_test, DTD batch insertion) of length <= 5 over pool kinds {1-task PTG, 2-task PTG, DTD}, <= 6 over {1-task PTG, DTD} and <= 4 with 2-task PTG chains (quick; thorough: <= 6 over all three kinds, then 7, then 8 over {1-task PTG, DTD} as far as the deadline allows) over <= 3 taskpools and <= 3 epochs are executed on the real runtime with EVERY task-level order on one execution stream; after every call the stamps (global counter, stamped by task bodies, completion callbacks and call returns) must show: context_wait returned after every task and completion callback of every taskpool added before or while it ran (transitively); taskpool_wait(tp) returned after every task and the callback of tp; every task ran exactly once; every PTG completion callback ran exactly once after its last task (DTD: once per wait that covers the pool); return codes are the documented ones in every epoch. The same histories run free on threads {1,2,4} x schedulers {default, ap, ll}.',
-    level_note='Task bodies, callbacks and runtime actions are atomic at the task level (one stream under hsched); the instruction-level races of the termination detector are C10. Restrictions of the alphabet: link targets and sources are PTG pools; DTD pools are added and fed by the main thread only and only while the context is started; taskpool_wait/test are issued only on pools that are certainly registered (the API returns -1 otherwise). A crash / failed assertion / hang on a case counts as a violation. Free-running legs enumerate configurations, not schedules.',
+    engine='rt+cosched',
+    technique='bounded-exhaustive enumeration of legal start/add/wait/test/insert histories of the real runtime, each executed under every task-level order of a harness-owned scheduler (one stream), plus a free-running configuration box; plus (legs il-*-tpwait) preemption-bounded exhaustive instruction-level schedule enumeration (cosched) of parsec_taskpool_wait on stream 0 against the worker loop on stream 1 on real generated PTG taskpools',
+    level_text='All complete legal histories (alphabet: context_start, context_wait, add_taskpool(root of a tree of "first task adds" / "completion callback adds" links), taskpool_wait, taskpool_test, DTD batch insertion) of length <= 5 over pool kinds {1-task PTG, 2-task PTG, DTD}, <= 6 over {1-task PTG, DTD} and <= 4 with 2-task PTG chains (quick; thorough: <= 6 over all three kinds, then 7, then 8 over {1-task PTG, DTD} as far as the deadline allows) over <= 3 taskpools and <= 3 epochs are executed on the real runtime with EVERY task-level order on one execution stream; after every call the stamps (global counter, stamped by task bodies, completion callbacks and call returns) must show: context_wait returned after every task and completion callback of every taskpool added before or while it ran (transitively); taskpool_wait(tp) returned after every task and the callback of tp; every task ran exactly once; every PTG completion callback ran exactly once after its last task (DTD: once per wait that covers the pool); return codes are the documented ones in every epoch. The same histories run free on threads {1,2,4} x schedulers {default, ap, ll}. Legs il-*-tpwait: three 3-4 task PTG taskpools (join, fan-out, chain through the scheduler queue) x 2 dependency back-ends on two controlled execution streams - stream 0: add_taskpool, parsec_taskpool_wait(tp), parsec_context_wait; stream 1: the worker loop - every interleaving with <= 1 preemption (thorough <= 2) at instrumented accesses to the taskpool counters, termination monitor, dependency tables, repositories, scheduler queue: when parsec_taskpool_wait returns every task has completed and the completion callback has run exactly once, and the epoch closes normally.',
+    level_note='Task bodies, callbacks and runtime actions are atomic at the task level (one stream under hsched); the instruction-level races of the termination detector are C10 (and, on whole taskpools with 2 streams under sequential consistency, the il legs). Restrictions of the alphabet: link targets and sources are PTG pools; DTD pools are added and fed by the main thread only and only while the context is started; taskpool_wait/test are issued only on pools that are certainly registered (the API returns -1 otherwise). A crash / failed assertion / hang on a case counts as a violation. Free-running legs enumerate configurations, not schedules.',
 )
 RULE = ("one execution = one complete history run on the real runtime under one choice list of the harness scheduler (every select() with >1 pending "
         "ready tasks is a choice point); states = nodes of the choice trees; transitions = scheduling decisions (orders legs) / operations (threads leg); "
@@ -23,8 +25,11 @@ def _exe(ctx):
         sys.stderr.write(r.stdout + r.stderr); raise vlib.Broken('ptgpp failed on chain.jdf')
     return ctx.compile('hk-shm', 'wait', ['wait_h.c', os.path.join(gen, 'chain.c')], instr=False,
                        cflags=['-I' + gen, '-I/verif/engine/rt', '-I/repo/parsec', '-Wno-unused-but-set-variable', '-Wno-format-truncation'])
+IL_PROGS = ['il_join', 'il_fanout', 'il_chain']
 def check(ctx):
     import vlib
+    from concurrent.futures import ThreadPoolExecutor
+    fut = ThreadPoolExecutor(1).submit(il.build, ctx, IL_PROGS)      # built in the background
     exe = _exe(ctx)
     q = ctx.tier == 'quick'
     jobs = str(min(vlib.NJOBS, 12))
@@ -33,6 +38,11 @@ def check(ctx):
     else:
         args = ['--plan', '6:abcd:0,7:abd:6,8:ad:7', '--len-free', '6', '--kinds', 'abcd', '--reps', '2', '--deadline', '1000', '--thorough']
     ctx.run_engine(exe, args + ['--outdir', vlib.OUT, '--jobs', jobs], label='wait', timeout=(600 if q else 2400))
-    return ctx.finish(RULE, ASSUME)
+    B = fut.result()
+    if not ctx.violations:
+        il.run(ctx, B, c01_only=True, mode='tpwait', names=IL_PROGS)
+    return ctx.finish(RULE + '; ' + il.RULE, ASSUME + il.ASSUME)
 def replay(ctx, path, obj):
+    if obj.get('engine') == 'cosched':
+        return il.replay(ctx, path, obj)
     return subprocess.call([_exe(ctx), '--replay', path])
